@@ -174,6 +174,20 @@ def make_fn(L):
                 o.viol("C08", "start_node_modified", "traverse_from modified the node object it was handed (it no longer equals traverse(prefix))",
                        call="traverse_from", start=q)
                 break
+        # the node bodies handed out belong to the caller: scribble over them, traversals must be unaffected
+        from .c03 import scribble
+        for q, node_q in positions:
+            scribble(node_q.raw)
+        for q, node_q in positions[:12]:
+            o.evals += 1
+            try:
+                got, _ = observe(lambda: t.traverse(q))
+            except Exception as e:  # noqa
+                o.viol("C08", "returned_node_aliased", f"after modifying a returned node body traverse raised {type(e).__name__}", call="traverse", path=q)
+                break
+            if got != expected(model, q):
+                o.viol("C08", "returned_node_aliased", "modifying a node body returned by traverse changed what traverse returns", call="traverse", path=q)
+                break
         if t.db.writes or t.db.dels:
             o.viol("C08", "traverse_mutated_db", "a traversal wrote to the database")
         if positions and not o.samples:
